@@ -2,6 +2,7 @@
 package c09
 
 import (
+	"time"
 	"github.com/csgura/fp"
 	"github.com/csgura/fp/eq"
 	"github.com/csgura/fp/hash"
@@ -108,6 +109,10 @@ func VH_c09_time() {
 	a, b, c := zz.Time("a"), zz.Time("b"), zz.Time("c")
 	eqLaws(eq.Time, a, b, c, "Time")
 	zz.Assert(eq.Time.Eqv(a, b) == (a.Unix() == b.Unix() && a.Nanosecond() == b.Nanosecond()), "Time: same instant")
+	// the same instant in another representation (other Location) is the same time
+	a2 := a.In(time.FixedZone("X", 3600))
+	zz.Assert(eq.Time.Eqv(a, a2) && eq.Time.Eqv(a2, a), "Time: the same instant in another zone is equal")
+	zz.Assert(eq.Time.Eqv(a2, b) == eq.Time.Eqv(a, b), "Time: equality does not depend on the zone")
 }
 
 // ---- Option / Ptr / ContraMap
